@@ -474,7 +474,7 @@ func verifDoOp(h *verifHub, op VerifOp, idx int, times map[int]int64, tokens map
 					lim = op.Limits[len(op.Limits)-1]
 				}
 			}
-			res, err := store.GetManyRelatedEntitiesAtTime(froms, lim, true)
+			res, err := store.GetManyRelatedEntitiesAtTime(froms, lim, !op.Bodies) // bodies: unmerged partials, one per dataset
 			if err != nil {
 				oo.Err = err.Error()
 				return
